@@ -259,6 +259,29 @@ def _var_side(fi: FuncInfo, name: str, sides: dict[str, str]) -> str | None:
     return None
 
 
+def required_maps_directions(model: Model, req: FuncInfo) -> bool:
+    """Negotiated.required answers addpath.receive exactly when the direction is IN and addpath.send otherwise: every
+    value it can return is listed with the facts it is returned under (whichever way the choice is written)."""
+    from ..alpha import Loc, value_cases
+
+    rloc = Loc(model, req)
+    cases: list[tuple[set[str], str]] = []
+    for n in walk_no_nested(req.node):
+        if isinstance(n, ast.Return) and n.value is not None:
+            cases += [(fs, norm(v)) for fs, v in value_cases(rloc, n, n.value)]
+    IN_ = {'self.direction == Direction.IN', 'self.direction is Direction.IN', 'Direction.IN == self.direction', 'self.direction != Direction.OUT', 'self.direction is not Direction.OUT'}
+    OUT_ = {'self.direction != Direction.IN', 'self.direction is not Direction.IN', 'Direction.IN != self.direction', 'self.direction == Direction.OUT', 'self.direction is Direction.OUT'}
+    okr = len(cases) >= 2
+    for fs, txt in cases:
+        if 'addpath.receive' in txt and 'addpath.send' not in txt:
+            okr = okr and bool(fs & IN_) and not (fs & OUT_)
+        elif 'addpath.send' in txt and 'addpath.receive' not in txt:
+            okr = okr and bool(fs & OUT_) and not (fs & IN_)
+        else:
+            okr = False
+    return okr
+
+
 def _r2_addpath(model: Model, run: Run, folder: Folder, neg: FuncInfo) -> None:
     setup = model.func(RP + '.setup')
     run.analysed(setup)
@@ -311,36 +334,7 @@ def _r2_addpath(model: Model, run: Run, folder: Folder, neg: FuncInfo) -> None:
     run.check(ok, neg.qualname, 'addpath.setup(%s) matches parameters %s' % (', '.join(norm(a) for a in calls[0].args) if calls else '', params[1:]), neg.loc(calls[0]) if calls else neg.loc(), 'the received and the sent OPEN must not be swapped')
     req = model.func(NEG + '.required')
     run.analysed(req)
-    # every value `required` can return, with the facts it is returned under (whichever way the choice is written)
-    from ..alpha import facts
-
-    rloc = Loc(model, req)
-    cases: list[tuple[set[str], str]] = []
-
-    def split(e: ast.AST, fs: set[str]) -> None:
-        if isinstance(e, ast.Call) and isinstance(e.func, ast.IfExp):
-            e = e.func
-        if isinstance(e, ast.IfExp):
-            from ..alpha import canon_fact
-
-            split(e.body, fs | {canon_fact(rloc, e.test, True, keep=['*'])})
-            split(e.orelse, fs | {canon_fact(rloc, e.test, False, keep=['*'])})
-            return
-        cases.append((fs, norm(e)))
-
-    for n in walk_no_nested(req.node):
-        if isinstance(n, ast.Return) and n.value is not None:
-            split(rloc.expanded(n.value, depth=6), facts(rloc, n))
-    IN_ = {'self.direction == Direction.IN', 'self.direction is Direction.IN', 'Direction.IN == self.direction', 'self.direction != Direction.OUT', 'self.direction is not Direction.OUT'}
-    OUT_ = {'self.direction != Direction.IN', 'self.direction is not Direction.IN', 'Direction.IN != self.direction', 'self.direction == Direction.OUT', 'self.direction is Direction.OUT'}
-    okr = len(cases) >= 2
-    for fs, txt in cases:
-        if 'addpath.receive' in txt and 'addpath.send' not in txt:
-            okr = okr and bool(fs & IN_) and not (fs & OUT_)
-        elif 'addpath.send' in txt and 'addpath.receive' not in txt:
-            okr = okr and bool(fs & OUT_) and not (fs & IN_)
-        else:
-            okr = False
+    okr = required_maps_directions(model, req)
     run.check(okr, req.qualname, 'IN -> receive, otherwise send', req.loc(), 'decoding (direction IN) uses the receive side of ADD-PATH, encoding the send side')
     # send()/receive() read their own table
     for nm in ('send', 'receive'):
